@@ -68,9 +68,9 @@ META.update({
     "C10": dict(technique=E1 + "; invariant = the map alpha -> observable state is single-valued over all histories and equals a freshly built problem bitwise; queries are self-loops; failed updates leave nothing exposed",
         text="Every state is approached through every history up to depth 3 (quick) / 4 (thorough) over alphabets that include rank-deficient, extreme and model-rejected parameter vectors.",
         note="The uninitialised-memory clause is decided by the heap engine once registered.", ref="DESIGN.md §5 C10"),
-    "C11": dict(technique=E1 + " on lock-step twins: parallel problem || sequential problem (real rayon), bitwise comparison in every state",
-        text="Every scenario of C01-C03 is stepped in both flavours through every history; all observable quantities must be bitwise equal. Catches drift between the two copies of set_params/jacobian.",
-        note="Schedule exhaustiveness (all work-stealing schedules) is the subject of the controlled-scheduler engine; this check runs real rayon with 4 worker threads.", ref="DESIGN.md §5 C11"),
+    "C11": dict(technique="stateless exhaustive schedule exploration of the real parallel Jacobian (shuttle DFS over a shim rayon-core: all steal maps x all interleavings), plus lock-step explicit-state exploration parallel||sequential under real rayon, plus whole fits under every pool size 1..16",
+        text="(a) every schedule of rayon's real iterator plumbing + nalgebra's column producer + varpro's closure yields the sequential Jacobian bitwise, evaluates every derivative exactly once, and yields None when any derivative fails; all P! evaluation orders are reached (non-vacuity). (b) every scenario of C01-C03 is stepped in both flavours through every history with bitwise-equal observations. (c) parallel fits under pools of 1..16 workers equal the sequential fit bitwise; into_sequential preserves the state.",
+        note="Interleavings at derivative-evaluation granularity; rayon's own deque/sleep protocol is replaced by the shim, not verified; P <= 5 columns.", ref="DESIGN.md §5 C11, appendix A"),
 })
 
 META.update({
@@ -106,6 +106,7 @@ NA = {
 }
 
 ENGINES = [
+    dict(name="sched", path="harness-sched/src/bin/sched.rs", serves_properties=["C11"], kind_free_text="stateless exhaustive schedule exploration (shuttle DFS) of real rayon/nalgebra/varpro over a shim rayon-core (harness-sched/shim/rayon-core)"),
     dict(name="fitenv", path="harness/src/bin/fitenv.rs", serves_properties=["C04"], kind_free_text="deviation-bounded DFS over scripted model answers; every leaf a real fit"),
     dict(name="fitgrid", path="harness/src/bin/fitgrid.rs", serves_properties=["C02", "C04", "C05"], kind_free_text="exhaustive product grids of real fits vs reference computations"),
     dict(name="pbuilder", path="harness/src/bin/pbuilder.rs", serves_properties=["C18"], kind_free_text="exhaustive enumeration of LevMarProblemBuilder call sequences vs reference validation"),
